@@ -163,10 +163,10 @@ bool Serializer::appendPOD(const void *p, size_t size)
     } else {
         //! 倒序写入
         const uint8_t *p_in = static_cast<const uint8_t*>(p);
-        p_out += size - 1;
+        p_out += size;
         size_t times = size;
         while (times-- > 0)
-            *p_out-- = *p_in++;
+            *--p_out = *p_in++;
     }
 
     pos_ += size;
@@ -309,10 +309,10 @@ bool Deserializer::fetchPOD(void *p, size_t size)
         memcpy(p, p_in, size);
     } else {
         //! 倒序读出
-        uint8_t *p_out = static_cast<uint8_t*>(p) + size - 1;
+        uint8_t *p_out = static_cast<uint8_t*>(p) + size;
         size_t times = size;
         while (times-- > 0)
-            *p_out-- = *p_in++;
+            *--p_out = *p_in++;
     }
 
     pos_ += size;
